@@ -24,3 +24,22 @@ Print Assumptions C08_vp9_bounded.
 Theorem C08_vp9_header_parser_total : forall buf, vp9_header buf <> HPanic.
 Proof. exact header_total. Qed.
 Print Assumptions C08_vp9_header_parser_total.
+
+(* ---- the translated kernels (tools/go2coq, spec.d/vp9.txt) ----
+   len(vpkt.Payload) == 0, d.fragmentsSize += len(vpkt.Payload), d.fragmentsSize > vp9.MaxFrameSize ARE the tests of
+   Model.dec (cap = GVG.Consts.vp9_max_frame). *)
+From Coq Require Import ZArith.
+From GVG Require Import Kern.
+From GV_vp9 Require Import BridgeLib Bridge.
+Open Scope Z_scope.
+Theorem C08_vp9_kernels_are_the_code : forall (chunk : bytes) (fs : N), Z.of_N (fs + nlen chunk) < i64max ->
+  k_vp9_dec_empty (Z.of_N (nlen chunk)) = (nlen chunk =? 0)%N /\
+  k_vp9_dec_acc (Z.of_N fs) (Z.of_N (nlen chunk)) = Z.of_N (fs + nlen chunk) /\
+  k_vp9_dec_cap (k_vp9_dec_acc (Z.of_N fs) (Z.of_N (nlen chunk))) (Z.of_N cap) = (cap <? fs + nlen chunk)%N.
+Proof. exact caps_kernels_are_the_code. Qed.
+Print Assumptions C08_vp9_kernels_are_the_code.
+
+Example C08_vp9_example_kernels :
+  k_vp9_dec_cap (k_vp9_dec_acc (Z.of_N cap - 5) 5) (Z.of_N cap) = false /\
+  k_vp9_dec_cap (k_vp9_dec_acc (Z.of_N cap - 5) 6) (Z.of_N cap) = true /\ k_vp9_dec_empty 0 = true.
+Proof. vm_compute. repeat split. Qed.
